@@ -191,6 +191,8 @@ type RunRecord struct {
 	Ack       []int64 // stamp of the acknowledgement (safe: CallEnd when nil was returned; unsafe: callback(nil)); 0 = none
 	Trace     []*DirEvent
 	Blobs     map[string][]byte
+	// HadSnapshot: a loadable snapshot existed before this run started (continuation phases)
+	HadSnapshot bool
 }
 
 // StateRange computes, for a crash interval, the admissible range of recovered model states:
@@ -213,14 +215,10 @@ func (r *RunRecord) StateRange(iv Interval) (lo, hi int) {
 // SnapshotEverCompleted reports whether a snapshot persist had completed before the interval's
 // latest instant, or the initial content already held a snapshot file.
 func (r *RunRecord) SnapshotEverCompleted(iv Interval) bool {
+	if r.HadSnapshot {
+		return true
+	}
 	for _, e := range r.Trace {
-		if e.Op == "setup" && e.After != nil {
-			for n := range e.After {
-				if strings.HasSuffix(n, index.ItemKindSnapshot) {
-					return true
-				}
-			}
-		}
 		if e.Op == "persist" && e.Kind == index.ItemKindSnapshot && e.Err == "" && e.End <= iv.Lo {
 			return true
 		}
